@@ -255,3 +255,6 @@ for _mode in ("append", "both"):
 
 from contracts import helpers as _HLP  # noqa: E402
 _HLP.register_under("C16", ["HELPER/validate_data_files", "HELPER/validate_file_exists", "HELPER/metadata-file-io"])
+
+from contracts import lemmas as _L  # noqa: E402
+register(Unit(P, "LEMMA/POWER-LOSS", _L.h_powerloss, functions=[], replay=_replay_writer, uses=_L.POWER_USES))
